@@ -246,7 +246,7 @@ impl WmoWriter {
     ) -> Result<()> {
         let header = ChunkHeader {
             id: chunks::MOHD,
-            size: 60, // Fixed size for header (without padding)
+            size: 64, // SMOHeader: 7 counts, ambient colour, wmoID, bounding box, flags, numLod
         };
 
         header.write(writer)?;
@@ -278,7 +278,8 @@ impl WmoWriter {
             flags &= !WmoFlags::HAS_SKYBOX;
         }
 
-        writer.write_u32_le(flags.bits())?;
+        // WMO id (foreign key into WMOAreaTable; not carried by the object model)
+        writer.write_u32_le(0)?;
 
         // Bounding box
         writer.write_f32_le(wmo.bounding_box.min.x)?;
@@ -288,6 +289,10 @@ impl WmoWriter {
         writer.write_f32_le(wmo.bounding_box.max.x)?;
         writer.write_f32_le(wmo.bounding_box.max.y)?;
         writer.write_f32_le(wmo.bounding_box.max.z)?;
+
+        // Flags (u16) and number of LODs (u16) close the 64-byte header
+        writer.write_u16_le(flags.bits() as u16)?;
+        writer.write_u16_le(0)?;
 
         Ok(())
     }
